@@ -512,7 +512,7 @@ func qrencMatrixStages(c *Ctx) {
 	})
 	var versions []int
 	for v := 1; v <= 40; v++ {
-		if c.Thorough || v <= 10 || v%7 == int(c.Seed%7) || v == 40 || v == 32 {
+		if c.Thorough || v <= 6 || v%9 == int(c.Seed%9) || v == 40 {
 			versions = append(versions, v)
 		}
 	}
@@ -999,8 +999,8 @@ func qrencRunTrace(k qrencCase) string {
 func qrencGenCase(c *Ctx, r *Rng) qrencCase {
 	k := qrencCase{ecl: c07Levels[r.Intn(4)]}
 	maxV := []int{2, 5, 9, 12}[r.Intn(4)]
-	if r.Chance(0.04) {
-		maxV = []int{27, 40}[r.Intn(2)]
+	if r.Chance(0.012) || (c.Thorough && r.Chance(0.05)) {
+		maxV = []int{20, 27, 40}[r.Intn(3)]
 	}
 	dmax := c07DataBytes(maxV, k.ecl)
 	kind := r.Intn(9)
